@@ -192,7 +192,7 @@ func runLoginX(cfg *runCfg) error {
 		lm := &msg.Login{Version: "0.61.0", PrivilegeKey: util.GetAuthKey(hx.DefaultToken, sp.ts), Timestamp: sp.ts,
 			RunID: rid, PoolCount: int(sp.pool)}
 		in := encodeMsg(lm)
-		o, err := observeFirst(ch.srv, &firstSpec{kind: "login-extreme", input: in, window: 1}, 250*time.Millisecond)
+		o, err := observeFirst(ch.srv, &firstSpec{kind: "login-extreme", input: in, window: 1}, 150*time.Millisecond)
 		if err != nil {
 			return fmt.Errorf("login-extreme pool=%d ts=%d: %v", sp.pool, sp.ts, err)
 		}
